@@ -34,7 +34,8 @@ type c19BufPlan struct {
 	QCap   int
 	WCap   int
 	NoDir  bool
-	Before []int // sizes of the chunk files present at start (0 = zero-length file)
+	Before []int // the chunk entries present at start: size of the file (0 = zero-length file), -1 = a directory named like a
+	// chunk, -2 = a dangling symbolic link named like a chunk (both cannot be read); a foreign file is always added too
 	Ops    []c19BufOp
 }
 
@@ -43,6 +44,7 @@ type c19SimChunk struct {
 	size   int
 	saved  bool
 	loaded bool
+	unreadable bool
 }
 
 // c19BufSim is the harness-side prediction of the buffer's behaviour (independent of the Coq model).
@@ -53,6 +55,8 @@ type c19BufSim struct {
 	hand                                                   *c19SimChunk
 	pending, inT, inP, consumed, leftover, dropped, ioerr  int64
 	pchunks, pbytes, nfiles                                int64
+	unrecovered                                            int64 // chunk entries beyond the queue capacity: never recovered
+	orphans                                                int64 // chunk entries left in the directory by chunks counted dropped
 }
 
 func (s *c19BufSim) emit(xs ...int64) { s.ev = append(s.ev, xs...) }
@@ -86,6 +90,7 @@ func (s *c19BufSim) drop(c *c19SimChunk) {
 	if c.saved {
 		s.pchunks--
 		s.pbytes -= s.dataLen(c)
+		s.orphans++
 	}
 	s.pending--
 	s.dropped++
@@ -106,6 +111,13 @@ func (s *c19BufSim) settle() {
 		s.queue = s.queue[1:]
 		s.emit(3)
 		s.hand = c
+		if !c.loaded && c.unreadable {
+			// LoadChunk fails: io error, OnChunkDropped; the entry stays in the directory
+			s.emit(4, 0, 1)
+			s.drop(c)
+			s.hand = nil
+			continue
+		}
 		if !c.loaded {
 			s.emit(4, 1, 1)
 			c.loaded = true
@@ -174,6 +186,7 @@ func c19RunBufPlan(pl *c19BufPlan, desc [6]int64) ([]int64, string, []Fail) {
 	match := func(id string) bool { return strings.HasSuffix(id, ".ff") }
 	sim := &c19BufSim{plan: pl}
 	var chunks []*c19SimChunk
+	statDir := func(int) int { return 0 }
 	idOf := func(i int) string { return fmt.Sprintf("%019d-%08d.ff", 1000+i, 0) }
 	// files of a previous run
 	if !pl.NoDir {
@@ -184,13 +197,31 @@ func c19RunBufPlan(pl *c19BufPlan, desc [6]int64) ([]int64, string, []Fail) {
 		probe.RegisterNewConsumer().OnFinished()
 		probe.Destroy()
 		for i, sz := range pl.Before {
-			data := make([]byte, sz)
-			for j := range data {
-				data[j] = byte('a' + j%26)
+			path := filepath.Join(qdir, idOf(i))
+			var werr error
+			switch sz {
+			case -1:
+				werr = os.Mkdir(path, 0o755)
+			case -2:
+				werr = os.Symlink(filepath.Join(qdir, "no-such-file"), path)
+			default:
+				data := make([]byte, sz)
+				for j := range data {
+					data[j] = byte('a' + j%26)
+				}
+				werr = os.WriteFile(path, data, 0o644)
 			}
-			if werr := os.WriteFile(filepath.Join(qdir, idOf(i)), data, 0o644); werr != nil {
+			if werr != nil {
 				fail("c19:harness:prefile", "%v", werr)
 			}
+		}
+		_ = os.WriteFile(filepath.Join(qdir, "0000000000000000000-00000000.ff.partial"), []byte("not a chunk"), 0o644)
+		_ = os.WriteFile(filepath.Join(qdir, "README"), []byte("foreign"), 0o644)
+		statDir = func(i int) int {
+			if st, serr := os.Stat(filepath.Join(qdir, idOf(i))); serr == nil {
+				return int(st.Size())
+			}
+			return 0
 		}
 	}
 	nfiles0 := int64(0)
@@ -199,6 +230,10 @@ func c19RunBufPlan(pl *c19BufPlan, desc [6]int64) ([]int64, string, []Fail) {
 		sim.nfiles = nfiles0
 		for i, sz := range pl.Before {
 			c := &c19SimChunk{idx: i, size: sz, saved: true}
+			if sz < 0 {
+				c.unreadable = true
+				c.size = statDir(i) // what stat() says: the size of the directory; nothing for the dangling link
+			}
 			chunks = append(chunks, c)
 			if len(sim.queue) < pl.QCap {
 				sim.emit(1, int64(i))
@@ -206,7 +241,9 @@ func c19RunBufPlan(pl *c19BufPlan, desc [6]int64) ([]int64, string, []Fail) {
 				sim.pending++
 				sim.inP++
 				sim.pchunks++
-				sim.pbytes += int64(sz)
+				sim.pbytes += int64(c.size)
+			} else {
+				sim.unrecovered++
 			}
 		}
 	}
@@ -369,10 +406,10 @@ func c19RunBufPlan(pl *c19BufPlan, desc [6]int64) ([]int64, string, []Fail) {
 		got[name] += int64(sr.Value)
 	}
 	files := 0
+	var diskList []c19DiskFile
 	if !pl.NoDir {
-		if lst := c19ListQueue(rootPath)["p1"]; lst != nil {
-			files = len(lst)
-		}
+		diskList = c19ListQueue(rootPath)["p1"]
+		files = len(diskList)
 	}
 	out := fmt.Sprintf("ok:b=%d,%d,%d,%d,%d,%d,%d,%d;f=%d", got["pending_chunks"], got["input_chunks_total/transient"], got["input_chunks_total/persistent"],
 		got["consumed_chunks_total"], got["leftover_chunks_total"], got["dropped_chunks_total"], got["persistent_chunks"], got["persistent_chunk_bytes"], files)
@@ -387,6 +424,29 @@ func c19RunBufPlan(pl *c19BufPlan, desc [6]int64) ([]int64, string, []Fail) {
 		got["input_chunks_total/persistent"], got["consumed_chunks_total"], got["leftover_chunks_total"], got["dropped_chunks_total"])
 	if ok && want != have {
 		fail("c19:buffer:counters!=script", "scripted buffer: counters %s, the script gives %s", have, want)
+	}
+	// the property's "left on disk", evaluated directly on the queue directory: the gauges are never negative, and -
+	// when every start-up entry was recovered and no saved chunk was dropped by a queue overflow - persistent_chunks
+	// is the number of chunk files there (not counting the entries that cannot be read) and persistent_chunk_bytes
+	// their total size
+	if got["persistent_chunks"] < 0 || got["persistent_chunk_bytes"] < 0 || got["pending_chunks"] < 0 {
+		fail("c19:buffer:negative-gauge", "scripted buffer: persistent_chunks %d, persistent_chunk_bytes %d, pending_chunks %d after Destroy (start-up entries %v)",
+			got["persistent_chunks"], got["persistent_chunk_bytes"], got["pending_chunks"], pl.Before)
+	}
+	if ok && !pl.NoDir {
+		var diskBytes, unreadable int64
+		for _, f := range diskList {
+			diskBytes += int64(f.Size)
+			if f.Unreadable {
+				unreadable++
+			}
+		}
+		if sim.unrecovered == 0 && sim.orphans == unreadable {
+			if got["persistent_chunks"] != int64(files)-unreadable || got["persistent_chunk_bytes"] != diskBytes {
+				fail("c19:buffer:persistent-gauges!=disk", "scripted buffer: persistent_chunks %d / persistent_chunk_bytes %d but the queue directory holds %d chunk files (+ %d unreadable entries) with %d bytes; start-up entries (size, -1 directory, -2 dangling link): %v",
+					got["persistent_chunks"], got["persistent_chunk_bytes"], int64(files)-unreadable, unreadable, diskBytes, pl.Before)
+			}
+		}
 	}
 	if ok && int64(files) != sim.nfiles {
 		fail("c19:buffer:files!=script", "scripted buffer: %d chunk files after Destroy, the script gives %d", files, sim.nfiles)
@@ -412,7 +472,7 @@ func c19MakeBufPlan(seed uint64, idx int) *c19BufPlan {
 	if !pl.NoDir && r.Chance(1, 3) {
 		n := r.Range(1, 4)
 		for i := 0; i < n; i++ {
-			sz := r.PickInt([]int{0, 40, 90, 130})
+			sz := r.PickInt([]int{0, 0, 40, 90, 130, -1, -2})
 			pl.Before = append(pl.Before, sz)
 		}
 	}
